@@ -1522,7 +1522,8 @@ func (x *Exec) txSet(name, basis int, look bool) {
 		// the assembled set must be acceptable as it stands (parents first, proofs at the tip)
 		// (only claimed when the caller's transaction is itself valid on top of the pool: basis = tip,
 		// every input either unspent at the tip or created by a pooled v2 transaction)
-		complete := basis == x.Tip && x.fresh // (x.p2 is the pool as it is now)
+		complete := basis == x.Tip && x.fresh && // (x.p2 is the pool as it is now)
+			lt.Height()+1 >= x.S.W.N.HardforkV2.AllowHeight // (and the regime at the tip admits v2 at all)
 		for _, in := range x.S.Tx(name).Ins {
 			if ledgerHas(lt, in) {
 				continue
